@@ -77,8 +77,7 @@ def AttrsWF(r: "ProvRecord") -> "bool":
     """representation invariant of the attribute table: key objects carry their key's URI, value sets are
     well-formed, representatives carry their canonical key"""
     return forall(
-        lambda u: implies(qm_has(r._attributes, u),
-                          qm_key(r._attributes, u).uri == u and vs_wf(qm_get(r._attributes, u))),
+        lambda u: vs_wf(qm_get(r._attributes, u)) and implies(qm_has(r._attributes, u), qm_key(r._attributes, u).uri == u),
         "str") and forall(
         lambda u, c: implies(vs_has(qm_get(r._attributes, u), c),
                              same(ck(vs_rep(qm_get(r._attributes, u), c)), c) and vs_n(qm_get(r._attributes, u)) > 0),
@@ -117,15 +116,17 @@ def HashRecord(x: "ProvRecord") -> "int":
 
 
 @contract("prov.model.ProvRecord.attributes", props=["C04", "C05", "C08", "C09"])
-def ProvRecord_attributes(self: "ProvRecord") -> "Seq[Tup[QN,Val]]":
+def ProvRecord_attributes(self: "ProvRecord") -> "Seq[Tup[Val,Val]]":
     pure()
     reveal("canon_in")
+    comprehension_elt("Tup[Val,Val]")
+    ensures("names-are-qualified-names", forall(lambda i: implies(0 <= i and i < seq_len(result), is_qn(seq_nth(result, i)[0])), "int"))
     requires("attrs-wf", AttrsWF(self))
     ensures("canonical-content",
             forall(lambda u, c: canon_in(result, u, c) == vs_has(qm_get(self._attributes, u), c), "str", "Val"))
     ensures("as-a-set", same(canon_set(result), attr_set(self._attributes)))
     ensures("members-are-stored",
-            forall(lambda a, v: implies(seq_has(result, pair(a, v)),
+            forall(lambda a, v: implies(seq_has(result, pair(box(a), v)),
                                         vs_has(qm_get(self._attributes, a.uri), ck(v))
                                         and same(vs_rep(qm_get(self._attributes, a.uri), ck(v)), v)
                                         and same(qm_key(self._attributes, a.uri), a)), "QN", "Val"))
